@@ -1,5 +1,6 @@
-//! VERIFICATION-ONLY software model of the five aarch64 intrinsics Miri does not
-//! interpret (`vaeseq_u8`, `vaesdq_u8`, `vaesmcq_u8`, `vaesimcq_u8`, `vqtbl4q_u8`).
+//! VERIFICATION-ONLY software model of the intrinsics Miri does not interpret: five on aarch64
+//! (`vaeseq_u8`, `vaesdq_u8`, `vaesmcq_u8`, `vaesimcq_u8`, `vqtbl4q_u8`) and one on x86
+//! (`_mm_aeskeygenassist_si128`, redirected to `x86_keygenassist`).
 //!
 //! This file is not part of RustCrypto/block-ciphers. /verif/gen/shadows.py copies it into a
 //! generated copy of the crate (aarch64 interpreter runs only) and adds one explicit `use`
@@ -171,3 +172,28 @@ pub(crate) unsafe fn vaesimcq_u8(data: uint8x16_t) -> uint8x16_t {
 pub(crate) unsafe fn vqtbl4q_u8(t: uint8x16x4_t, idx: uint8x16_t) -> uint8x16_t {
     unsafe { transmute(tbl4([transmute(t.0), transmute(t.1), transmute(t.2), transmute(t.3)], transmute(idx))) }
 }
+
+/// AESKEYGENASSIST: with X3..X0 the dwords of `a`,
+/// result = [SubWord(X1), RotWord(SubWord(X1)) ^ rcon, SubWord(X3), RotWord(SubWord(X3)) ^ rcon]
+pub fn keygenassist(a: [u8; 16], rcon: u8) -> [u8; 16] {
+    let w = |i: usize| u32::from_le_bytes([a[4 * i], a[4 * i + 1], a[4 * i + 2], a[4 * i + 3]]);
+    let sub = |x: u32| u32::from_le_bytes(x.to_le_bytes().map(|b| SBOX[b as usize]));
+    let rot = |x: u32| x.rotate_right(8);
+    let (x1, x3) = (sub(w(1)), sub(w(3)));
+    let out = [x1, rot(x1) ^ rcon as u32, x3, rot(x3) ^ rcon as u32];
+    let mut o = [0u8; 16];
+    for i in 0..4 {
+        o[4 * i..4 * i + 4].copy_from_slice(&out[i].to_le_bytes());
+    }
+    o
+}
+
+#[cfg(any(target_arch = "x86_64", target_arch = "x86"))]
+pub(crate) unsafe fn x86_keygenassist(a: crate::verif_neon_model::X86Vec, imm: i32) -> crate::verif_neon_model::X86Vec {
+    unsafe { core::mem::transmute(keygenassist(core::mem::transmute(a), imm as u8)) }
+}
+
+#[cfg(target_arch = "x86_64")]
+pub(crate) type X86Vec = core::arch::x86_64::__m128i;
+#[cfg(target_arch = "x86")]
+pub(crate) type X86Vec = core::arch::x86::__m128i;
